@@ -19,7 +19,7 @@ ASSUMPTIONS = ["band: -eps <= v*-x <= threshold*T + eps, T = exact max expected 
 TIMEOUT = 1800
 
 CLASSES_Q = [("G-ACY", 700), ("G-ACYNF", 200), ("G-CYC", 700), ("G-CYCNF", 150), ("G-SLOW", 250), ("G-EC", 500),
-             ("G-TIE", 250), ("G-TIEC", 250), ("G-DEAD", 500), ("G-TINY", 150), ("G-LEX", 250), ("G-TINYB", 200), ("G-INIT0F", 100), ("G-INIT0NF", 100), ("G-NOREACH", 100), ("G-NEARC", 100), ("G-MIX", 500), ("G-SMALLX", 500), ("G-VSLOWR", 2), ("G-LATE", 200), ("G-HALF", 60), ("G-EMPTY", 200), ("G-GAP", 600), ("G-GAPLOOP", 60), ("G-CORR", 100)]
+             ("G-TIE", 250), ("G-TIEC", 250), ("G-DEAD", 500), ("G-TINY", 150), ("G-LEX", 250), ("G-TINYB", 200), ("G-INIT0F", 100), ("G-INIT0NF", 100), ("G-NOREACH", 100), ("G-NEARC", 100), ("G-MIX", 500), ("G-SMALLX", 500), ("G-VSLOWR", 2), ("G-LATE", 200), ("G-HALF", 60), ("G-EMPTY", 200), ("G-GAP", 600), ("G-GAPLOOP", 60), ("G-CORR", 100), ("G-RETRY", 150)]
 THRESHOLDS = [1e-2, 1e-4, 1e-9]
 
 
